@@ -471,6 +471,25 @@ def where(b, *rest):
     return (r,)
 
 
+def flatnonzero(a):
+    """np.flatnonzero(a) == np.where(a.ravel())[0]; for a 1-d array np.where(a)[0]"""
+    a = _arr(a)
+    if a.ndim != 1:
+        raise Unsupported('flatnonzero of an n-d array')
+    return where(a)[0]
+
+
+def full_like(a, fill_value, dtype=None):
+    a = _arr(a)
+    k = _kind_from_dtype(dtype, a.kind)
+    if isinstance(fill_value, float) and fill_value != fill_value:
+        if k != 'f':
+            raise Unsupported('NaN fill value for a non-float array')
+        return SArr(a.shape_e, lambda *ix: z3.RealVal(0), 'f', nan=lambda *ix: z3.BoolVal(True))
+    v = _conv(lift(fill_value), k)
+    return SArr(a.shape_e, lambda *ix: v, k)
+
+
 def register_param_where(c, V, n, name):
     """Declare np.where(V == key)[0] as a *function of key* for the input vector backed by the z3 function V (length n):
     KK(key) = number of hits, WW(key, q) = q-th hit, PP(key, i) = rank of hit i.  Same ASSUMED contract as where(), quantified over key."""
